@@ -149,8 +149,9 @@ class XsdAssert(XsdComponent, ElementPathMixin[Union['XsdAssert', SchemaElementT
             )
             if not self.token.evaluate(xpath_context):
                 context.validation_error(validation, self, "assertion test is false", obj)
-        except (ElementPathError, ValueError) as err:
+        except (ElementPathError, ValueError, ArithmeticError) as err:
             # ValueError: the XPath processor rejects malformed instance data (e.g. xsi:type)
+            # ArithmeticError: out of range values (e.g. a huge integer compared with a double)
             context.validation_error(validation, self, err, obj)
 
     # For implementing ElementPathMixin
